@@ -56,7 +56,7 @@ SLURM_MAP = {"cores": "cpus-per-task", "memory": "mem", "walltime": "time", "que
 WD_NAMES = ["plain", "{queue}", "x{cores}y", "with space", "semi;colon", "amp&ersand", "dollar$HOME", "star*", "single'quote", 'double"quote', "paren(s)", "back`tick", "ünïcödé", "tab-less but  two spaces", "#hash", "~tilde", "a|b", "x>y", "br{a,b}ce", "q?mark", "excl!"]
 
 
-QUICK_BUDGET = {"cases": 960, "deadline_s": 170, "case_timeout_s": 120, "floors": {"scripts_checked": 684, "scripts_executed": 684, "directives_checked": 4152, "logs_cmd_checked": 548, "logclean_checked": 336}}
+QUICK_BUDGET = {"cases": 960, "deadline_s": 170, "case_timeout_s": 120, "floors": {"scripts_checked": 684, "scripts_executed": 684, "directives_checked": 4152, "logs_cmd_checked": 548, "logclean_checked": 336, "partial_run_logclean_checked": 180}}
 THOROUGH_FACTOR = 12  # thorough = the same workload with 12x the cases (floors scale along)
 
 
@@ -378,6 +378,22 @@ def run_case(case):
             hasnone = any(v is None for s in (case["wf_defaults"], t["topts"], t["kopts"]) for v in s.values())
             srcpat.append((levels >= 1, hasnone, bool(unknown), quoting))
             wdclasses.add("".join(sorted(set(c for c in t["wd_name"] if not c.isalnum()))))
+        # ---- a later run of ONE named target: logs of the other (current) targets stay, whatever the run covers
+        if len(case["targets"]) >= 2:
+            for stale in ("gone3.stdout", "gone3.stderr"):
+                with open(os.path.join(logs, stale), "w") as f:
+                    f.write("old\n")
+            before_l = set(os.listdir(logs))
+            r5 = cli.gwf(foreign, ["-f", wf, "run", case["targets"][-1]["name"]], env)
+            after_l = set(os.listdir(logs))
+            res.mon("partial_run_logclean_checked")
+            lost = sorted(p for p in before_l - after_l if os.path.splitext(p)[0] in names)
+            if r5.rc != 0:
+                res.violation("crash", "gwf run <one target> failed", **cli.crash_witness(r5))
+            elif lost:
+                res.violation("logclean-wrong-file", "`gwf run %s` deleted %s: logs of targets that are still part of the workflow" % (case["targets"][-1]["name"], lost), targets=names)
+            elif case["clean_logs"] is False and before_l - after_l:
+                res.violation("logclean-when-off", "clean_logs is off but the partial run deleted %s" % sorted(before_l - after_l))
         res.sig = (sched, case["log_mode"], sorted(srcpat), sorted(wdclasses))
         res.nontrivial = any(all(p) for p in srcpat)
     return res
